@@ -193,6 +193,11 @@ pub open spec fn oav(o: Option<Action>) -> Option<AV> { match o { Some(a) => Som
 pub open spec fn av_default() -> AV {
     AV { status: None, headers: Seq::empty(), bodies: Seq::empty(), rule_ids: Seq::empty(), traces: Seq::empty(), applied: Seq::empty(), log: None }
 }
+pub open spec fn status_at(u: Option<StatusCodeUpdate>, c: u16) -> u16 { match u { None => 0u16, Some(x) => ref_status(x, c).0 } }
+pub open spec fn live_status(u: Option<StatusCodeUpdate>, example_status: u16, fallback: u16) -> (u16, u16) {
+    let s0 = status_at(u, 0);
+    if s0 != 0 { (s0, s0) } else { let b = if example_status == 0 { fallback } else { example_status }; (status_at(u, b), b) }
+}
 // reference fold from the statement of C05, over the rules in processing (ascending priority) order:
 // a skipped (sampled-out) rule contributes nothing; `reset` discards everything accumulated so far (all lower-priority rules);
 // `stop` ends the fold (no higher-priority rule contributes); otherwise merge
@@ -394,6 +399,12 @@ impl Action {
     //@|     av(*final(self)) == (AV { applied: final(self).rules_applied@, ..av(*old(self)) }),
     //@| outline `rule_id.to_string()`#0 => `outl_to_string(rule_id)`
     //@| outline `rule_id.to_string()`#1 => `outl_to_string(rule_id)`
+
+    // the analyses (explain, impact) ask for "the status the live pipeline answers with, and the status its backend saw": the live pipeline decides
+    // at request time first (code 0: no backend response yet); only when nothing is decided there is the backend called — with the status the
+    // example says it answers, or the fallback when the example says nothing — and the action consulted again with that status
+    //@@ fn src/action/mod.rs :: impl Action / fn get_final_status_code_with_fallback -> r
+    //@| ensures r == live_status(old(self).status_code_update, response_status_code, fallback_status_code),
 
     //@@ fn src/action/mod.rs :: impl Action / fn should_log_request -> r
     //@| ensures r == (match old(self).log_override { None => allow_log_config, Some(u) => match ref_log(u, response_status_code).0 { Some(b) => b, None => allow_log_config } }),
